@@ -446,6 +446,31 @@ async fn run(scn: Value) -> Value {
             // C18 (additive): start one more real statistics Collector the way main.rs does.  The first tick of its
             // interval fires at once: an end of the statistics period (update_averages + reset_current_counts for
             // every address with a registered server) happens NOW instead of 15 s after the start.
+            // C18 (additive): wait for a settled point instead of a fixed sleep: return once everything observable (the
+            // statistics registries via the public API, pool states, the global event counter of clients and mock
+            // backends, the list of ended pooler tasks) has not moved for `quiet_ms`, or at `deadline_ms`.
+            "settle_all" => {
+                let quiet = step["quiet_ms"].as_u64().unwrap_or(40);
+                let deadline = step["deadline_ms"].as_u64().unwrap_or(1500);
+                let t0 = std::time::Instant::now();
+                let fp = |ctx: &Ctx| {
+                    let s = pooler::snapshot();
+                    format!("{}|{}|{}|{}|{}", s["clients"], s["servers"], s["pools"], ctx.pooler.as_ref().unwrap().task_results.lock().len(), mockpg::SEQ.load(Ordering::SeqCst))
+                };
+                let mut last = fp(&ctx);
+                let mut since = std::time::Instant::now();
+                loop {
+                    tokio::time::sleep(std::time::Duration::from_millis(5)).await;
+                    let cur = fp(&ctx);
+                    if cur != last {
+                        last = cur;
+                        since = std::time::Instant::now();
+                    }
+                    if since.elapsed().as_millis() as u64 >= quiet || t0.elapsed().as_millis() as u64 >= deadline {
+                        break;
+                    }
+                }
+            }
             "collector" => {
                 let mut c = pgcat::stats::Collector::default();
                 c.collect().await;
